@@ -96,6 +96,9 @@ OPS = {'and': operator.and_, 'or': operator.or_, 'xor': operator.xor}
 NPOP = {operator.and_: np.logical_and, operator.or_: np.logical_or, operator.xor: np.logical_xor}
 
 
+_GIVEN_META = {}
+
+
 def build_with_operators(spec):
     """Build the tree through the public operators &, |, ^ (then attach the
     compound's own meta if the spec gives one)."""
@@ -112,6 +115,7 @@ def build_with_operators(spec):
     c = {'and': lambda: a & b, 'or': lambda: a | b, 'xor': lambda: a ^ b}[op]()
     if 'meta' in spec:
         c = regions.CompoundPixelRegion(a, b, OPS[op], meta=regions.RegionMeta(spec['meta']))
+        _GIVEN_META[id(c)] = (c, dict(spec['meta']))
     return c, a, b, op
 
 
@@ -183,6 +187,12 @@ def run_case(case, obs):
               'operator-construction-wrong', f'{opname}: compound does not hold the two operands and the operator', 'construction')
     if 'meta' not in spec:
         obs.check(comp.meta is a.meta or dict(comp.meta) == dict(a.meta), 'compound-meta-default', 'compound built by an operator does not carry region1.meta', 'construction')
+    for node in walk(comp):
+        if id(node) in _GIVEN_META and _GIVEN_META[id(node)][0] is node:
+            given = _GIVEN_META[id(node)][1]
+            obs.check(dict(node.meta) == given, 'compound-meta-not-the-one-given',
+                      f'compound constructed with meta={given} carries {dict(node.meta)} (region1.meta = {dict(node.region1.meta)})', 'construction')
+    _GIVEN_META.clear()
     fp0 = S.fingerprint(comp)
     pc = c01.make_queries(comp, case['q'])
     # (i) consistency at every compound node (exact: library answers only)
